@@ -837,6 +837,49 @@ def spec_features(spec):
     return sorted(out)
 
 
+MIX_KEYS = {'int': {'t': 'int', 'v': 2}, 'none': {'t': 'none'}, 'bool': {'t': 'bool', 'v': True},
+            'tuple': {'t': 'tuple', 'v': [{'t': 'str', 'v': 'x'}, {'t': 'int', 'v': 1}]}, 'str': {'t': 'str', 'v': 'extra'}}
+
+
+def mix_keys(spec, rng, own_only=False):
+    """A copy of the spec in which every non-empty dict parameter has keys of MIXED types: a mapping keyed by strings gets an int /
+    None / bool / tuple key, any other mapping gets a str key (value: a copy of its first value).  Returns (spec, kinds added) or None
+    if there is no dict to mix.  (The typed dict form must be chosen as soon as ONE key is not a string — seeded change C19l.)"""
+    spec = json.loads(json.dumps(spec))
+    kinds = []
+
+    def visit(s, depth):
+        if not isinstance(s, dict):
+            return
+        if s.get('t') == 'dict' and s['k']:
+            have = {k.get('t') for k in s['k']}
+            if have == {'str'}:
+                kind = rng.choice(['int', 'none', 'bool', 'tuple'])
+            elif 'str' not in have:
+                kind = 'str'
+            else:
+                kind = None
+            if kind is not None and not any(json.dumps(k, sort_keys=True) == json.dumps(MIX_KEYS[kind], sort_keys=True) for k in s['k']):
+                s['k'].append(json.loads(json.dumps(MIX_KEYS[kind])))
+                s['v'].append(json.loads(json.dumps(s['v'][0])))
+                kinds.append(kind)
+        if own_only and depth >= 1 and s.get('t') == 'obj':
+            return
+        for child in _children(s):
+            visit(child, depth + (s.get('t') == 'obj'))
+    visit(spec, 0)
+    return (spec, kinds) if kinds else None
+
+
+def has_mixed_keys(spec):
+    for s in _walk(spec):
+        if s.get('t') == 'dict':
+            ts = {k.get('t') for k in s['k']}
+            if 'str' in ts and len(ts) > 1:
+                return True
+    return False
+
+
 def is_deterministic(spec):
     """False when the object tree contains a random component without an explicit integer seed."""
     for s in _walk(spec):
